@@ -329,7 +329,7 @@ pub fn sets(ctx: &Ctx) -> Vec<CaseSet> {
     let (tb1, cfg1) = (tb.clone(), cfg.clone());
     out.push(CaseSet::new(
         "default-options-every-offset",
-        ctx.size(1_500, 60_000),
+        ctx.size(6_000, 300_000),
         Box::new(move |rep, rng, _| {
             let v = gen_c07_value(rng, &cfg1, &tb1);
             check(rep, &v, &P::default_(), rng, true);
@@ -357,7 +357,7 @@ pub fn sets(ctx: &Ctx) -> Vec<CaseSet> {
     let (tb3, cfg3) = (tb.clone(), cfg.clone());
     out.push(CaseSet::new(
         "larger-values-sampled-offsets",
-        ctx.size(400, 20_000),
+        ctx.size(1_600, 100_000),
         Box::new(move |rep, rng, _| {
             let mut c = (*cfg3).clone();
             c.max_depth = 5;
@@ -368,6 +368,6 @@ pub fn sets(ctx: &Ctx) -> Vec<CaseSet> {
         }),
     ));
 
-    out.push(CaseSet::new("serde-entry-points", ctx.size(300, 20_000), Box::new(move |rep, rng, _| serde_entry(rep, rng))));
+    out.push(CaseSet::new("serde-entry-points", ctx.size(1_200, 100_000), Box::new(move |rep, rng, _| serde_entry(rep, rng))));
     out
 }
